@@ -16,6 +16,11 @@ MCTopics == {T_ab, T_ac}
 MCFilters == {F_ab, F_ap}
 MCMatch == {<<t, f>> \in MCTopics \X MCFilters : MT!Matches(t, f)}
 
+\* richer universe for generated schedules: overlapping literal / + / # filters and a $-topic
+MCTopics3 == {T_ab, T_ac, T_dx}
+MCFilters3 == {F_ab, F_ap, F_h}
+MCMatch3 == {<<t, f>> \in MCTopics3 \X MCFilters3 : MT!Matches(t, f)}
+
 MCNoWill == [n \in Nets |-> NOMSG]
 \* net k belongs to client k (n1 -> c1, ...); n3 reuses c1 (reconnect / takeover)
 MCNetCid == [n \in Nets |-> CASE n = "n1" -> "c1" [] n = "n2" -> "c2" [] n = "n3" -> "c1" [] OTHER -> "c2"]
